@@ -398,15 +398,48 @@ func checkC13(p *Prog, res *Result, tier string) {
 		nh++
 		construct := fmt.Sprintf("%s: header revision of streamed response #%d", funcName(f), nh)
 		v := resolve(s.Val)
-		good := false
-		if _, isParam := v.(*ssa.Parameter); isParam {
-			good = true // terminator constructor: the stream's revision parameter
-		}
-		if ld, ok := v.(*ssa.UnOp); ok {
-			if fa, ok := ld.X.(*ssa.FieldAddr); ok && len(f.Params) > 0 && resolve(fa.X) == ssa.Value(f.Params[0]) {
-				good = true // the receiver's read-revision field
+		// the stream's revision: the revision parameter of Scanner.RangeStream, handed down through constructors and
+		// producers, or the receiver's read-revision field (which is fed from it, checked below) - not just any
+		// parameter (append's third parameter is the revision of the key being appended)
+		p.buildCallers()
+		var streamRev func(v ssa.Value, d int) bool
+		streamRev = func(v ssa.Value, d int) bool {
+			v = p.resolveDeep(v)
+			if d > 5 {
+				return false
 			}
+			switch x := v.(type) {
+			case *ssa.UnOp:
+				if fa, ok := x.X.(*ssa.FieldAddr); ok && x.Op == token.MUL {
+					fn := x.Parent()
+					for fn.Parent() != nil {
+						fn = fn.Parent()
+					}
+					return len(fn.Params) > 0 && p.resolveDeep(fa.X) == ssa.Value(fn.Params[0]) && isUint64(x.Type())
+				}
+			case *ssa.Parameter:
+				fn := x.Parent()
+				for _, impl := range p.implsOf(rangeStreamM) {
+					if fn == impl {
+						return isUint64(x.Type())
+					}
+				}
+				idx := sigParamIndex(x)
+				cs := p.callers[fn]
+				if len(cs) == 0 || idx < 0 {
+					return false
+				}
+				for _, c := range cs {
+					a := argForSigParam(c, idx)
+					if a == nil || !streamRev(a, d+1) {
+						return false
+					}
+				}
+				return true
+			}
+			return false
 		}
+		good := streamRev(v, 0)
 		// the read-revision field itself is set only when a receiver is constructed (parameter) or forked (copied
 		// from the parent's field)
 		if ld, ok := v.(*ssa.UnOp); ok && good {
@@ -605,6 +638,13 @@ func checkC13(p *Prog, res *Result, tier string) {
 			return "", false
 		}
 		checkErrorPreservation(p, res, "C13-R8", inScope, fallible, "a partition whose scan failed would be reported as complete: the read succeeds with keys missing")
+		// the same below the scanner: an adapter's iterator hands the engine's error on instead of ending the data (C11-R11)
+		sub11 := p.subResult("C11", tier)
+		for _, o := range sub11.Obls {
+			if o.Rule == "C11-R11" && (strings.Contains(strings.ToLower(o.Construct), "iter") || strings.Contains(o.Construct, "Next")) {
+				res.add("C13-R8", o.Rule+" "+o.Construct, o.Status, o.Pos, o.Detail)
+			}
+		}
 	}
 
 }
